@@ -60,8 +60,8 @@ pub fn asc_programs(tier: &str) -> (Vec<Program>, String) {
         v.extend(fam::a_sc(1, 2, 3, 5, true));
         v.extend(fam::a_sc(2, 2, 2, 4, true));
         v.extend(fam::a_sc(1, 3, 1, 3, false));
-        v.extend(fam::a_sc_stagger(2, 3, 2, 4));
-        level = "A-sc: 2 threads x <=2 ops (1 location), RMW-only 2 threads <=5 ops, 3 threads x 1 op; staggered joins: 3 children <=4 ops on 2 locations with main between joins".to_string();
+        v.extend(fam::a_sc_stagger_slots(2, 3, 2, 4, 0));
+        level = "A-sc: 2 threads x <=2 ops (1 location), RMW-only 2 threads <=5 ops, 3 threads x 1 op; staggered joins: 3 children <=4 ops on 2 locations, every join order, main op after the first join".to_string();
     } else {
         v.extend(fam::a_sc(1, 2, 3, 6, false));
         v.extend(fam::a_sc(2, 2, 2, 4, false));
